@@ -85,6 +85,8 @@ func (vc *ConnCursor) Eof() bool    { return vc.eof }
 func (vc *ConnCursor) Close() error { return nil }
 
 func (vc *ConnCursor) Filter(_ int, idxStr string, values ...sqlite.Value) error {
+	// a scan starts over: as the inner table of a join the cursor is filtered once per outer row
+	vc.eof = false
 	return nil
 }
 
